@@ -21,17 +21,23 @@ def first_sentence(text: str, limit: int = 230) -> str:
 
 
 def rows(kind: str):
-    base = VERIF / 'seeded' / ('benign' if kind == 'benign' else '')
+    base = VERIF / 'seeded' / ('benign' if kind.startswith('benign') else '')
     for d in sorted(base.iterdir()):
         if not (d / 'meta.json').exists():
             continue
         if kind == 'hard' and '-r2' not in d.name:
             continue
+        if kind == 'hard3' and '-r3' not in d.name:
+            continue
         m = json.load(open(d / 'meta.json'))
+        if kind == 'benign3' and m['property'] not in ('C01', 'C11', 'C12', 'C15', 'C18', 'C19'):
+            continue
+        if kind == 'benign' and m['property'] in ('C01', 'C11', 'C12', 'C15', 'C18', 'C19'):
+            continue
         r = sweep.get(d.name, {})
         fired = r.get('fired', {})
         own = fired.get(m['property'], {})
-        if kind == 'benign':
+        if kind.startswith('benign'):
             verdict = 'silent' if not fired else 'ALARM ' + ', '.join(f"{k}:{'/'.join(v['rules'])}" for k, v in fired.items())
         else:
             others = sorted(k for k, v in fired.items() if k != m['property'] and v['rc'] == 1)
@@ -42,7 +48,7 @@ def rows(kind: str):
 
 
 kind = sys.argv[1] if len(sys.argv) > 1 else 'hard'
-print('| seed | change | ' + ('verdict of all 20 checks' if kind == 'benign' else "caught by (own property's rules)") + ' |')
+print('| seed | change | ' + ('verdict of all 20 checks' if kind.startswith('benign') else "caught by (own property's rules)") + ' |')
 print('|---|---|---|')
 for name, what, verdict in rows(kind):
     print(f"| {name} | {what} | {verdict} |")
